@@ -422,6 +422,23 @@ class Interp:
         return [Outcome('next', env)]
 
     def st_Return(self, st, env):
+        # ``return a if c else b`` with an undecided c is two return paths
+        if isinstance(st.value, ast.IfExp):
+            c = self.eval(st.value.test, env)
+            if self.truth(c) is None and self.assumed(st.value.test) is None:
+                outs = []
+                for arm, pol in ((st.value.body, True),
+                                 (st.value.orelse, False)):
+                    e = dict(env)
+                    self.refine(st.value.test, e, pol)
+                    self.add_fact(e, st.value.test, pol)
+                    self.cond += 1
+                    try:
+                        v = snapshot(self.eval(arm, e))
+                    finally:
+                        self.cond -= 1
+                    outs.append(Outcome('ret', e, v, node=st))
+                return outs
         v = self.eval(st.value, env) if st.value is not None else NONE()
         if self.cond > 0:
             v = snapshot(v)
@@ -826,6 +843,24 @@ class Interp:
                     return 'body'
                 if d.elem is None and d.label is None:
                     return 'handler'
+            # memoisation:  try: t = D[key]  except KeyError: t = <expr>;
+            # D[key] = t   -- a hit returns what an earlier miss stored for the
+            # same key, i.e. the value of <expr>: the handler decides the value
+            if isinstance(b.targets[0], ast.Name) and h.body:
+                last = h.body[-1]
+                tname = b.targets[0].id
+                if isinstance(last, ast.Assign) and \
+                        isinstance(last.targets[0], ast.Subscript) and \
+                        ast.dump(last.targets[0].value) == \
+                        ast.dump(b.value.value) and \
+                        ast.dump(last.targets[0].slice) == \
+                        ast.dump(b.value.slice) and \
+                        isinstance(last.value, ast.Name) and \
+                        last.value.id == tname and \
+                        any(isinstance(x, ast.Assign) and
+                            isinstance(x.targets[0], ast.Name) and
+                            x.targets[0].id == tname for x in h.body[:-1]):
+                    return 'handler'
             return None
         if hname == 'TypeError' and isinstance(b, ast.Assert):
             for c in ast.walk(b.test):
@@ -981,8 +1016,11 @@ class Interp:
             return INT()
         if arr.dt == 'b':
             return BOOL()
-        return FLOAT(taint=arr.taint, lg=arr.lg, unit=arr.unit, deg=arr.deg,
-                     cnt=arr.cnt)
+        r = FLOAT(taint=arr.taint, lg=arr.lg, unit=arr.unit, deg=arr.deg,
+                  cnt=arr.cnt)
+        if isinstance(arr.src, tuple) and arr.src and arr.src[0] == 'cumsum':
+            r.src = arr.src
+        return r
 
     # ------------------------------------------------------------------
     # subscripts
@@ -1430,6 +1468,25 @@ class Interp:
 
     def subscript(self, base, idx, node):
         k = base.k
+        if k == 'ext' and base.ext in ('numpy.r_',):
+            # np.r_[a, b, ...]: 1-D concatenation of scalars and vectors
+            parts = idx.items if idx.k == 'tuple' and idx.items is not None \
+                else [idx]
+            tot = Poly.const(0)
+            taint = frozenset()
+            for p_ in parts:
+                if p_.k in ('int', 'float', 'bool'):
+                    tot = tot + 1 if tot is not None else None
+                elif p_.k == 'arr' and p_.dims is not None and \
+                        len(p_.dims) == 1 and p_.dims[0] is not None:
+                    tot = tot + p_.dims[0] if tot is not None else None
+                elif p_.k == 'arr' and p_.dims is not None and \
+                        len(p_.dims) == 0:
+                    tot = tot + 1 if tot is not None else None
+                else:
+                    tot = None
+                taint = taint | p_.taint
+            return ARR((tot,), 'f', taint=taint)
         if k in ('list', 'tuple', 'iter'):
             if idx.k == 'int':
                 if base.items is not None:
